@@ -20,6 +20,7 @@ def main() -> int:
     seed = a.seed if a.seed is not None else int(os.environ.get("VERIF_SEED", "0") or 0)
     warnings.filterwarnings("ignore")
     logging.getLogger("splink").setLevel(logging.ERROR)
+    logging.disable(logging.WARNING)
     from harness import core
 
     ctx = core.Ctx(a.prop.upper(), a.tier, seed, a.replay)
